@@ -60,6 +60,10 @@ Proof.
     destruct (read_batch (st l) pkts []) as [[s' rp] | [s' e] | t]; try exact H; try contradiction.
     unfold fail_with. destruct (loop_clean_inv (with_st l s') H) as [l' [Hc [I' _]]]. rewrite Hc. exact I'.
   - destruct (arm_ready l); [|exact Logic.I].
+    pose proof (read_batch_inv pkts (st l) [] I) as H.
+    destruct (read_batch (st l) pkts []) as [[s' rp] | [s' e] | t]; try contradiction;
+      unfold fail_with; destruct (loop_clean_inv (with_st l s') H) as [l' [Hc [I' _]]]; rewrite Hc; exact I'.
+  - destruct (arm_ready l); [|exact Logic.I].
     pose proof (outgoing_ping_inv (st l) I) as H. cbn [handle_outgoing_packet].
     destruct (outgoing_ping (st l)) as [[s' [pk|]] | [s' e] | t]; cbn [post] in H; try exact H; try contradiction.
     unfold fail_with. destruct (loop_clean_inv (with_st l s') H) as [l' [Hc [I' _]]]. rewrite Hc. exact I'.
